@@ -101,6 +101,20 @@ def classes():
     class BaseBoom(BaseException):
         pass
 
+    def raise_kind(code, mark, msg):
+        """raise an exception of kind `code` (see EXC_KINDS), tagged so that the harness can tell the injected one"""
+        import asyncio
+        import sys as _sys
+        try:
+            if code == 3:
+                _sys.exit(msg)
+            cls = {0: Boom, 1: Boom, 2: BaseBoom, 4: KeyboardInterrupt, 5: GeneratorExit, 6: asyncio.CancelledError,
+                   7: KeyError, 8: AssertionError, 9: StopIteration, 10: OSError}[int(code)]
+            raise cls(msg)
+        except BaseException as e:
+            e._c12_mark = mark
+            raise
+
     def enter(obj):
         obj._c12 = REC.cur
         REC.cur[0].objs.append((REC.cur[1], obj))
@@ -112,7 +126,7 @@ def classes():
     def raising(obj):
         if obj.spec["relF"]:
             ev(obj, "relexc")
-            raise (BaseBoom if obj.spec.get("relBase") else Boom)("release")
+            raise_kind(obj.spec.get("relBase") or 1, "rel", "release")
 
     def released(obj):
         rec, mid = obj._c12
@@ -132,13 +146,63 @@ def classes():
         def close(self):
             self.is_open = False
 
+    def busy_body(task, rb):
+        """a task body that is *busy* when stop()/remove() arrives: blocked in a call to a peer's object that does not
+        answer, in a local call that itself waits for the peer, in sleep(), in get_next_signal()"""
+        from qmi.core.exceptions import QMI_TaskStopException
+        from qmi.core.pubsub import QMI_SignalReceiver
+        from harness import detsched as D
+        st = task.spec["state"]
+        try:
+            if rb == "remote":
+                p = task._context.get_rpc_object_by_name("p0.gate")
+                st["about"] += 1
+                st["out"].append((rb, p.block()))
+            elif rb == "chain":
+                p = task._context.get_rpc_object_by_name("c1." + NAMES[3])
+                st["about"] += 1
+                st["out"].append((rb, p.relay()))
+            elif rb == "sleep":
+                st["about"] += 1
+                task.sleep(1.0e6)
+                st["out"].append((rb, "woke-up"))
+            elif rb == "signal":
+                recv = QMI_SignalReceiver()
+                st["about"] += 1
+                recv.get_next_signal(timeout=None)
+                st["out"].append((rb, "got-signal"))
+        except D.SchedAbort:
+            raise
+        except QMI_TaskStopException:
+            st["out"].append((rb, "QMI_TaskStopException"))
+            raise
+        except BaseException as e:  # noqa
+            st["out"].append((rb, type(e).__name__))
+
+    class Gate(QMI_RpcObject):
+        """lives in the peer context: a method that does not answer until the harness opens the gate"""
+        def __init__(self, context, name, state):
+            super().__init__(context, name)
+            self.state = state
+
+        @rpc_method
+        def block(self):
+            self.state["entered"] += 1
+            self.state["ev"].wait()
+            return "released"
+
     class Obj(QMI_RpcObject):
         def __init__(self, context, name, spec):
             enter(self)
             super().__init__(context, name)
             self.spec = spec
             if spec["ctorF"]:
-                raise Boom("ctor")
+                raise_kind(spec["ctorF"], "ctor", "ctor")
+
+        @rpc_method
+        def relay(self):
+            # a plain object's method that is itself blocked in a call to the peer
+            return self._context.get_rpc_object_by_name("p0.gate").block()
 
         def release_rpc_object(self):
             released(self)
@@ -152,7 +216,7 @@ def classes():
             self.spec = spec
             self._tr = FakeTransport()
             if spec["ctorF"]:
-                raise Boom("ctor")
+                raise_kind(spec["ctorF"], "ctor", "ctor")
 
         @rpc_method
         def open(self):
@@ -179,7 +243,7 @@ def classes():
             super().__init__(task_runner, name)
             self.spec = spec
             if spec["ctorF"]:
-                raise Boom("ctor")
+                raise_kind(spec["ctorF"], "ctor", "ctor")
 
         def run(self):
             rb = self.spec["runB"]
@@ -187,6 +251,8 @@ def classes():
                 raise Boom("run")
             if rb == "finish":
                 return
+            if rb in BUSY_BODIES:
+                return busy_body(self, rb)
             while not self.stop_requested():
                 self.sleep(1.0)
 
@@ -207,7 +273,7 @@ def classes():
                 raise
             raising(self)
 
-    _CLS = dict(Boom=Boom, BaseBoom=BaseBoom, Obj=Obj, Instr=Instr, Task=Task, Runner=Runner)
+    _CLS = dict(Boom=Boom, BaseBoom=BaseBoom, raise_kind=raise_kind, Gate=Gate, Obj=Obj, Instr=Instr, Task=Task, Runner=Runner)
     return _CLS
 
 
@@ -566,7 +632,21 @@ def observe(ctx, ev0: int) -> str:
 # executing one layer-A operation on a real context
 # ---------------------------------------------------------------------------
 
+EXC_KINDS = {1: "Boom(Exception)", 2: "BaseBoom(BaseException)", 3: "SystemExit via sys.exit()", 4: "KeyboardInterrupt",
+             5: "GeneratorExit", 6: "asyncio.CancelledError", 7: "KeyError", 8: "AssertionError", 9: "StopIteration", 10: "OSError"}
+EXC_CODES = [1, 7, 8, 9, 10]          # Exception subclasses
+BASE_CODES = [2, 3, 4, 5, 6]          # BaseException subclasses that are not Exception
+BUSY_BODIES = ("remote", "chain", "sleep", "signal")
+MODEL_RUNB = {b: "loop" for b in BUSY_BODIES}   # harness-only task bodies -> the model's body (runs until stopped)
+
+
 def _exc_s(e: BaseException) -> str:
+    # the injected exception, whatever its class, is what the model calls Boom (constructor) / BaseBoom (base stop handler)
+    mark = getattr(e, "_c12_mark", None)
+    if mark == "ctor":
+        return "exc:Boom"
+    if mark == "handler-base":
+        return "exc:BaseBoom"
     return "exc:" + type(e).__name__
 
 
@@ -579,6 +659,7 @@ class Runner1:
         self.ctx = None
         self.proxies = {}          # (name idx, kind) -> proxy
         self.single = via_singleton
+        self.busy_state = {"about": 0, "entered": 0, "out": [], "ev": None}
 
     def config(self):
         from qmi.core.config_defs import CfgQmi, CfgContext
@@ -626,7 +707,7 @@ class Runner1:
             if task is None or _done(th):
                 continue
             S = _TaskThread.State
-            if th._state in (S.INITIAL, S.READY_TO_RUN) or (th._state == S.RUNNING and task.spec["runB"] == "loop"):
+            if th._state in (S.INITIAL, S.READY_TO_RUN) or (th._state == S.RUNNING and task.spec["runB"] in ("loop",) + BUSY_BODIES):
                 continue
             if True:
                 ts = th._ds_ts
@@ -646,7 +727,7 @@ class Runner1:
         k = op[0]
         if k == "make":
             _, kind, n, namestr, ctorF, relF, runB, relBase = op
-            spec = {"ctorF": bool(ctorF), "relF": bool(relF), "runB": runB, "relBase": bool(relBase)}
+            spec = {"ctorF": int(ctorF), "relF": bool(relF), "runB": runB, "relBase": int(relBase), "state": self.busy_state}
             if self.single:
                 import qmi
                 tgt = qmi
@@ -705,14 +786,15 @@ class Runner1:
             rec.hcalls.append(0)
             kind = op[1]
             shape = op[2] if len(op) > 2 else "def"
+            code = op[3] if len(op) > 3 else 0
 
             def core():
                 rec.hcalls[i] += 1
                 rec.events.append(f"h:{i}")
                 if kind == "exc":
-                    raise C["Boom"]("stop handler")
+                    C["raise_kind"](code if code in EXC_CODES else 1, "handler-exc", "stop handler")
                 if kind == "base":
-                    raise C["BaseBoom"]("stop handler")
+                    C["raise_kind"](code if code in BASE_CODES else 2, "handler-base", "stop handler")
             ctx.register_stop_handler(make_callable(shape, kind, core))
             return "ok"
         if k == "start":
@@ -826,7 +908,7 @@ def op_line(op) -> str:
     k = op[0]
     if k == "make":
         _, kind, n, namestr, ctorF, relF, runB, _rb = op
-        return f"make {kind} {n} {int(ref_valid(namestr))} {int(ctorF)} {int(relF)} {runB}"
+        return f"make {kind} {n} {int(ref_valid(namestr))} {int(bool(ctorF))} {int(relF)} {MODEL_RUNB.get(runB, runB)}"
     if k == "get":
         return f"get {op[1]}"
     if k in ("remove", "call", "iopen", "iclose", "tstart", "tjoin"):
@@ -1066,7 +1148,7 @@ def run_conc(seed, cfg_tcp: bool, pop_ops, mk, gate=None, until="stopped", polic
             tr.obs.append({"op": op, "out": o})
         rec = REC.of(r.ctx)
         _, kind, n, namestr, ctorF, relF, runB, _rb = mk
-        tr.lines.append(f"conc {kind} {n} {int(ctorF)} {int(relF)} {runB}")
+        tr.lines.append(f"conc {kind} {n} {int(bool(ctorF))} {int(relF)} {MODEL_RUNB.get(runB, runB)}")
         tr.conc.append(len(tr.lines) - 1)
         tr.obs_pending = ["conc", mk]
         before_ids = [m._c12_id for m in rec.mgrs if getattr(m, "_c12_thread", None) is not None and not _done(m._c12_thread)]
@@ -1131,7 +1213,7 @@ def run_mm(seed, cfg_tcp: bool, pop_ops, mk1, mk2, policy="weighted", change_poi
             tr.impl.append(f"{o} | {observe(r.ctx, ev0)}")
             tr.obs.append({"op": op, "out": o})
         rec = REC.of(r.ctx)
-        f = lambda mk: f"{mk[1]} {mk[2]} {int(mk[4])} {int(mk[5])} {mk[6]}"
+        f = lambda mk: f"{mk[1]} {mk[2]} {int(bool(mk[4]))} {int(mk[5])} {MODEL_RUNB.get(mk[6], mk[6])}"
         tr.lines.append(f"conc2 {f(mk1)} {f(mk2)}")
         tr.conc.append(len(tr.lines) - 1)
         tr.obs_pending = ["conc2", mk1, mk2]
@@ -1207,6 +1289,185 @@ def oracle_mm(tr: Trace):
         bad.append(("mm:stray-thread", f"{ob['line']}", 0))
     if ob["thr_end"] != (0, 0, 0):
         bad.append(("mm:stop-leaves-threads", f"after the final stop(): {ob['thr_end']} {ob['end']}", 0))
+    return bad
+
+
+BUSY_SPECS = [
+    {"tasks": ["remote"], "callers": 0, "action": "stop"},
+    {"tasks": ["chain"], "callers": 0, "action": "stop"},
+    {"tasks": ["remote", "sleep", "signal"], "callers": 1, "action": "stop"},
+    {"tasks": ["sleep", "chain", "remote"], "callers": 0, "action": "stop", "relF": 1},
+    {"tasks": [], "callers": 2, "action": "stop"},
+    {"tasks": ["remote", "remote"], "callers": 0, "action": "disconnect_then_stop"},
+    {"tasks": ["chain", "signal"], "callers": 1, "action": "disconnect_then_stop"},
+    {"tasks": ["sleep", "signal"], "callers": 0, "action": "remove"},
+    {"tasks": ["signal", "sleep", "remote"], "callers": 0, "action": "remove_then_stop"},
+    {"tasks": ["remote", "remote"], "callers": 1, "action": "stop", "settled": False},
+    {"tasks": ["chain", "remote"], "callers": 0, "action": "stop", "settled": False},
+]
+
+
+def run_busy(seed, spec: dict, policy="weighted", change_points=None) -> Trace:
+    """objects that are BUSY when stop()/remove() arrives: tasks (and a plain object's method, and plain threads) blocked in a
+    call to a peer context's object that does not answer, in a local call that waits for the peer, in sleep(), in
+    get_next_signal().  Two contexts (c1 under test, peer p0 holding the gate) under the scheduler + simnet."""
+    tr = Trace()
+    tr.obs_pending = ["busy", spec]
+
+    def body(w):
+        from harness import detsched as D
+        from qmi.core.context import QMI_Context
+        from qmi.core.config_defs import CfgQmi, CfgContext
+        C = classes()
+        REC.world = w
+        cfg_tcp = bool(spec.get("cfg_tcp", seed % 2))
+        r = Runner1(w, cfg_tcp)
+        st = r.busy_state
+        st["ev"] = D.Event()
+        p0 = QMI_Context("p0", CfgQmi(contexts={"p0": CfgContext(tcp_server_port=PEER_PORT)}))
+        p0.start()
+        p0.make_rpc_object("gate", C["Gate"], st)
+        r.new()
+        ctx = r.ctx
+        rec = REC.of(ctx)
+        res = {"setup": [r.do(["start", 0, 0])], "callers": []}
+        ctx.connect_to_peer("p0", "localhost:%d" % PEER_PORT)
+        relF = int(spec.get("relF", 0))
+        directed = (not spec.get("settled", True)) and policy == "pct" and change_points is not None
+        res["steps_wait"] = w.sched.steps
+        if directed:
+            # main has the lowest priority of all threads that were not demoted: it proceeds only when everything else is
+            # blocked (settled) - or when the thread running at the change point (a task on its way to the socket thread, the
+            # socket thread, a worker) is demoted below it: the sweep over change points places stop() at every yield index
+            w.sched.main.prio = -0.5
+        res["setup"].append(r.do(["make", "rpc", 3, NAMES[3], 0, relF, "loop", 0]))          # the relay object ("chain")
+        for i, b in enumerate(spec["tasks"]):
+            n = [1, 2, 4][i]
+            res["setup"].append(r.do(["make", "task", n, NAMES[n], 0, relF, b, 0]))
+            res["setup"].append(r.do(["tstart", n]))
+
+        def mk_caller():
+            out = []
+            res["callers"].append(out)
+            p = ctx.get_rpc_object_by_name("p0.gate")
+
+            def run():
+                st["about"] += 1
+                try:
+                    out.append(p.block())
+                except D.SchedAbort:
+                    out.append("never-answered")
+                    raise
+                except BaseException as e:  # noqa
+                    out.append(type(e).__name__)
+            return run
+        threads = [w.spawn(mk_caller(), "caller") for _ in range(spec["callers"])]
+        nbusy = len(spec["tasks"]) + spec["callers"]
+        nremote = sum(1 for b in spec["tasks"] if b in ("remote", "chain")) + spec["callers"]
+        # wait until everybody is about to block; in half of the runs also until the peer has really entered the method
+        # settled = every call to the peer has arrived there (the gate object serves one call at a time: one caller is inside
+        # block(), the others wait in its queue), i.e. every request is an unanswered *pending* request of c1's connection.
+        # Unsettled (spec["settled"] = False) = the action may arrive while a request is still on its way to the socket
+        # thread: that is the known race `call-waits-forever:own-context-stopped` (C01), reported under its own signature.
+        gate_mgr = p0._rpc_object_map["gate"]
+
+        def arrived():
+            return st["entered"] + len(gate_mgr._rpc_thread._fifo)
+        if spec.get("settled", True):
+            w.sched.yield_point("c12.busy", blocked_on=lambda: st["about"] >= nbusy and arrived() >= nremote)
+        elif directed:
+            w.sched.yield_point("c12.busy", blocked_on=lambda: st["about"] >= 1)
+        else:
+            w.sched.yield_point("c12.busy", blocked_on=lambda: st["about"] >= nbusy)
+        res["steps_action"] = w.sched.steps
+        res["entered_at_action"] = st["entered"]
+        res["before"] = sorted(m._c12_id for m in rec.mgrs if getattr(m, "_c12_thread", None) is not None and not _done(m._c12_thread))
+        act = spec["action"]
+        res["action"] = []
+        if act in ("remove", "remove_then_stop"):
+            n = 1
+            res["action"].append(("remove", r.do(["remove", n])))
+            res["after_remove"] = (thread_counts(rec), residue_s(ctx, rec))
+        if act == "disconnect_then_stop":
+            try:
+                ctx.disconnect_from_peer("p0")
+                res["action"].append(("disconnect", "ok"))
+            except D.SchedAbort:
+                raise
+            except BaseException as e:  # noqa
+                res["action"].append(("disconnect", _exc_s(e)))
+        if act != "remove":
+            res["action"].append(("stop", r.do(["stop"])))
+            res["after_stop"] = (thread_counts(rec), residue_s(ctx, rec))
+        if act != "remove":
+            for t in threads:
+                t.join()
+        res["relc"] = dict(rec.rel_count)
+        res["out"] = list(st["out"])
+        # tidy up: open the gate, stop what is left; none of this may hang either
+        st["ev"].set()
+        for t in threads:
+            t.join()
+        if ctx._active:
+            res["final_stop"] = r.do(["stop"])
+        p0.stop()
+        res["thr_end"] = thread_counts(rec)
+        res["stray"] = stray_s()
+        res["probe"] = r.probe()
+        return res
+
+    out = _run(seed, body, policy=policy, change_points=change_points, max_steps=60000)
+    tr.deadlock = out.deadlock or ("step budget exceeded" if out.budget else None)
+    tr.error = out.error
+    tr.calls = out.value
+    tr.thread_errors = [(n, type(e).__name__) for n, e in out.thread_errors]
+    return tr
+
+
+def oracle_busy(spec: dict, tr: Trace):
+    kinds = "+".join(sorted(set(spec["tasks"]) | ({"caller"} if spec["callers"] else set())))
+    if tr.deadlock is not None and not spec.get("settled", True):
+        return [("busy-unsettled:hang:own-context-stopped",
+                 f"a call issued while the caller's own context stops is lost ({kinds}): {tr.deadlock[:300]}", 0)]
+    if tr.deadlock is not None:
+        return [(f"busy:hang:{spec['action']}:{kinds}",
+                 f"{spec['action']} with busy objects ({kinds}) never completed: {tr.deadlock[:300]}", 0)]
+    res = tr.calls
+    bad = []
+    if any(o != "ok" for o in res["setup"]):
+        bad.append(("busy:setup-fails", f"setup: {res['setup']}", 0))
+    for what, o in res["action"]:
+        if o != "ok":
+            bad.append((f"busy:{what}-raises:{o[4:]}", f"{what}() with busy objects raised {o}", 0))
+    if "after_stop" in res:
+        thr, resid = res["after_stop"]
+        st = parse_state(resid)
+        if thr != (0, 0, 0):
+            bad.append((f"busy:stop-leaves-threads:{kinds}", f"threads after stop(): {thr}", 0))
+        if st["conn"] != "-" or st["h"] != "-" or st["map"] != "-":
+            bad.append(("busy:stop-leaves-residue", f"after stop(): {resid}", 0))
+        for mid in res["before"]:
+            if res["relc"].get(mid, 0) != 1:
+                bad.append(("busy:release-count", f"manager {mid} released {res['relc'].get(mid, 0)} times", 0))
+        for b, o in res["out"]:
+            if b in ("remote", "chain") and o != "QMI_MessageDeliveryException":
+                bad.append((f"busy:blocked-call-outcome:{b}", f"a task blocked in a call to the peer saw {o!r} when its context stopped", 0))
+            if b in ("sleep", "signal") and o != "QMI_TaskStopException":
+                bad.append((f"busy:wait-outcome:{b}", f"a task blocked in {b} saw {o!r}", 0))
+        if len(res["out"]) != len(spec["tasks"]):
+            bad.append(("busy:task-not-finished", f"{len(spec['tasks'])} busy tasks, outcomes {res['out']}", 0))
+        for outs in res["callers"]:
+            if outs != ["QMI_MessageDeliveryException"]:
+                bad.append(("busy:caller-outcome", f"a thread blocked in a call to the peer saw {outs} when the context stopped", 0))
+    if "after_remove" in res:
+        thr, resid = res["after_remove"]
+        st = parse_state(resid)
+        if any(e.split(":")[0] == "1" for e in _lst(st["map"])) or any(e.split(":")[0] == "1" for e in _lst(st["h"])):
+            bad.append(("busy:remove-leaves-residue", f"after remove(): {resid}", 0))
+    if res["thr_end"] != (0, 0, 0) or res["stray"]:
+        bad.append(("busy:threads-left", f"threads at the end: {res['thr_end']}{res['stray']}", 0))
+    if res["probe"] != "ok":
+        bad.append(("busy:cannot-start-again", f"new context afterwards: {res['probe']}", 0))
     return bad
 
 
@@ -1382,8 +1643,9 @@ def gen_make(rng, fault_bias=0.25, names=(1, 2, 3, 4), invalid=0.12):
         if names == (1, 2, 3, 4) and rng.random() < 0.12:
             n = rng.choice([5, 6, 7, 8])
         namestr = NAMES[n]
-    return ["make", kind, n, namestr, int(rng.random() < fault_bias), int(rng.random() < 0.3),
-            rng.choice(["loop", "loop", "raise", "finish"]), int(rng.random() < 0.3)]
+    ctorF = rng.choice([1, 1] + EXC_CODES + BASE_CODES) if rng.random() < fault_bias else 0
+    return ["make", kind, n, namestr, ctorF, int(rng.random() < 0.3),
+            rng.choice(["loop", "loop", "raise", "finish", "sleep", "signal"]), rng.choice([0, 0, 1] + EXC_CODES + BASE_CODES)]
 
 
 def gen_op(rng):
@@ -1406,7 +1668,8 @@ def gen_op(rng):
     if r < 0.91:
         return ["tjoin", n]
     if r < 0.96:
-        return ["addh", rng.choice(["ok", "exc", "exc", "base"] if rng.random() < 0.25 else ["ok", "exc", "exc"]), rng.choice(CALLABLE_SHAPES)]
+        hk = rng.choice(["ok", "exc", "exc", "base"] if rng.random() < 0.25 else ["ok", "exc", "exc"])
+        return ["addh", hk, rng.choice(CALLABLE_SHAPES), rng.choice(BASE_CODES if hk == "base" else EXC_CODES)]
     if r < 0.98:
         return ["removeForeign"]
     return ["start", 0, 0]
@@ -1460,7 +1723,7 @@ def gen_singleton(rng, max_ops: int):
             elif r < 0.7:
                 ops.append(["q", ["get", rng.choice([1, 2, 3, 4]), rng.choice(["rpc", "instr", "task"])]])
             elif r < 0.78:
-                ops.append(["q", ["addh", rng.choice(["ok", "exc"]), rng.choice(CALLABLE_SHAPES)]])
+                ops.append(["q", ["addh", rng.choice(["ok", "exc"]), rng.choice(CALLABLE_SHAPES), rng.choice(EXC_CODES)]])
             elif r < 0.84:
                 ops.append(["qcontext"])
             elif r < 0.9:
@@ -1487,7 +1750,7 @@ def gen_population(rng):
         if mk[1] == "instr" and rng.random() < 0.5:
             ops.append(["iopen", n])
     if rng.random() < 0.4:
-        ops.append(["addh", rng.choice(["ok", "exc"]), rng.choice(CALLABLE_SHAPES)])
+        ops.append(["addh", rng.choice(["ok", "exc"]), rng.choice(CALLABLE_SHAPES), rng.choice(EXC_CODES)])
     mk = gen_make(rng, 0.2, names=(4, 4, 4, 1), invalid=0.0)
     return rng.random() < 0.5, ops, mk
 
@@ -1795,6 +2058,8 @@ def run_case(case: dict) -> Trace:
     if k == "mm":
         return run_mm(case["seed"], case["cfg_tcp"], case["pop"], case["mk1"], case["mk2"], policy=case.get("policy", "weighted"),
                       change_points=case.get("change_points"))
+    if k == "busy":
+        return run_busy(case["seed"], case["spec"], policy=case.get("policy", "weighted"), change_points=case.get("change_points"))
     if k == "calls":
         return run_calls(case["seed"], case["spec"], policy=case.get("policy", "pct"), change_points=case.get("change_points"))
     raise ValueError(case)
@@ -1805,6 +2070,8 @@ def oracle(case: dict, tr: Trace):
         return oracle_calls(case["spec"], tr)
     if case["kind"] == "mm":
         return oracle_mm(tr)
+    if case["kind"] == "busy":
+        return oracle_busy(case["spec"], tr)
     return {"hist": oracle_history, "single": oracle_singleton, "conc": oracle_conc}[case["kind"]](tr)
 
 
@@ -1846,6 +2113,15 @@ DIRECTED_HIST = [
              ["tstart", 1], ["tjoin", 1], ["remove", 1], ["make", "instr", 1, "a", 0, 0, "loop", 0], ["make", "rpc", 1, "a", 0, 0, "loop", 0],
              ["remove", 1], ["call", 1], ["make", "rpc", 1, "a", 1, 0, "loop", 0], ["make", "rpc", 1, "a", 0, 0, "loop", 0], ["stop"], ["probe"]]),
     (True, [["make", "rpc", 1, "a", 0, 0, "loop", 0], ["get", 1, "rpc"], ["stop"], ["start", 0, 0], ["addh", "base"], ["stop"], ["stop"], ["probe"]]),
+    # constructors of every object kind failing with every exception kind (Exception and non-Exception BaseException): the make
+    # raises, nothing is left, the name is free at once; release steps and stop handlers raising every kind
+    (False, [["start", 0, 0]] +
+            [op for code in EXC_CODES + BASE_CODES for kind in ("rpc", "instr", "task")
+             for op in (["make", kind, 1, "a", code, 0, "loop", 0], ["make", kind, 1, "a", 0, 1, "loop", code], ["remove", 1])] +
+            [["addh", "exc", "def", code] for code in EXC_CODES] +
+            [["make", "task", 2, "b-1", 0, 1, "loop", 3], ["tstart", 2], ["make", "rpc", 3, "c_(2)", 0, 1, "loop", 4], ["stop"], ["probe"]]),
+    (True, [["start", 0, 0], ["make", "rpc", 1, "a", 0, 0, "loop", 0]] + [op for code in BASE_CODES for op in (["addh", "base", "partial", code],)][:1] +
+           [["stop"], ["call", 1], ["stop"], ["probe"]]),
     # stop handlers of every callable kind, raising and returning, in two orders; every one must be called once and stop() must finish
     (True, [["start", 0, 0]] + [["addh", k, sh] for sh in CALLABLE_SHAPES for k in ("exc", "ok")] +
            [["make", "task", 1, "a", 0, 1, "loop", 0], ["tstart", 1], ["make", "instr", 2, "b-1", 0, 0, "loop", 0], ["iopen", 2],
@@ -2011,6 +2287,45 @@ class C12(Prop):
             k += len(tr.lines)
         return n
 
+    def _busy(self, res: Result, ctx: Ctx, seeds: int, seed0: int, stride: int = 3) -> int:
+        """objects busy when stop()/remove() arrives (two contexts; oracle only)"""
+        n = 0
+        cases = []
+        for i, spec in enumerate(BUSY_SPECS):
+            for sd in range(seeds):
+                cases.append((i, {"kind": "busy", "seed": seed0 + 100 * i + sd, "spec": spec, "policy": "pct" if sd % 3 == 2 else "weighted"}))
+            if not spec.get("settled", True):
+                # the action at every (stride-th) yield index between "first caller about to call" and "everything has settled"
+                base = {"kind": "busy", "seed": seed0 + 100 * i + 77, "spec": spec, "policy": "pct", "change_points": []}
+                tr0 = run_case(base)
+                if tr0.error is not None:
+                    raise tr0.error
+                if tr0.calls is not None:
+                    for cp in range(tr0.calls["steps_wait"], tr0.calls["steps_action"] + 2, stride):
+                        cases.append((i, dict(base, change_points=[cp])))
+        for i, case in cases:
+            spec = case["spec"]
+            if True:
+                tr = run_case(case)
+                if tr.error is not None:
+                    raise tr.error
+                n += 1
+                res.traces_validated += 1
+                res.count("scenarios_busy")
+                res.count("busy_%s_%s" % (spec["action"], "+".join(spec["tasks"]) + ("+%dcallers" % spec["callers"] if spec["callers"] else "")))
+                if tr.calls is not None:
+                    for b, o in tr.calls["out"]:
+                        res.count(f"busy_outcome_{b}_{o}")
+                res.note_case(("busy", i, case["seed"]), nontrivial=True)
+                for sig, det, _i in oracle(case, tr):
+                    if self._seen.get(sig, 0) >= 1:
+                        self._seen[sig] += 1
+                        continue
+                    self._seen[sig] = 1
+                    res.failures.append(Failure(signature=sig, summary=f"{sig}: {det[:400]} | case={_short(case)}",
+                                                replay={**case, "expect": sig}))
+        return n
+
     def _diff(self, res: Result, batch: list) -> None:
         drv = LeanDriver(self.driver)
         lines, spans = [], []
@@ -2046,7 +2361,11 @@ class C12(Prop):
                           "maker parked at each of 5 cut points until stop() has collected / returned, plus random schedules; layer D (oracle "
                           "only): 1-3 caller threads (local and from a peer context) calling with rpc_timeout=None while main runs remove()/stop(), "
                           "line-level yield points in RpcObjectManager.handle_message, the action placed at every yield index of that window "
-                          "(PCT change-point sweep). After every op the "
+                          "(PCT change-point sweep); busy objects (oracle only): tasks, a plain object's method and plain threads blocked in a call to "
+                          "a peer that does not answer / in a local call waiting for the peer / in sleep() / in get_next_signal() when stop(), "
+                          "disconnect or remove() arrives (two contexts). Constructors, release steps and stop handlers raise every exception "
+                          "kind (Exception subclasses; SystemExit, KeyboardInterrupt, GeneratorExit, CancelledError, an application "
+                          "BaseException); stop handlers are every kind of callable. After every op the "
                           "abstract state read from the real objects is compared with the model. Non-trivial = contains a stop, remove, failed "
                           "start or race; distinct by (kind, ops, faults, gate).")
         self._seen = {}
@@ -2088,6 +2407,8 @@ class C12(Prop):
         ctx.log(f"layer C done: {n} scenarios")
         n += self._calls(res, ctx, seeds=range(ctx.scale(1, 3)), stride=ctx.scale(10, 2), randoms=ctx.scale(4, 40), seed0=seed0 + 500000)
         ctx.log(f"layer D done: {n} scenarios")
+        n += self._busy(res, ctx, seeds=ctx.scale(8, 60), seed0=seed0 + 700000, stride=ctx.scale(2, 1))
+        ctx.log(f"busy objects done: {n} scenarios")
         self._diff(res, batch)
         for case, tr in batch[:2] + [b for b in batch if b[0]["kind"] == "single"][:1] + [b for b in batch if b[0]["kind"] == "conc"][-1:]:
             res.sample({"case": _short(case), "lines": tr.lines[:12], "impl": tr.impl[:12]})
@@ -2138,6 +2459,7 @@ class C12(Prop):
                 self._add(res, batch, case, run_case(case)); n += 1
         # calls racing remove()/stop(): the action at every yield index of the call path, two priority assignments
         self._calls(res, ctx, seeds=range(2), stride=1, randoms=20, seed0=seed0 + 900000)
+        self._busy(res, ctx, seeds=30, seed0=seed0 + 950000, stride=1)
         return res
 
     def replay(self, ctx: Ctx, rp: dict):
@@ -2165,6 +2487,8 @@ def i_prev_state(tr: Trace, ob):
 
 def _short(case: dict) -> str:
     c = dict(case)
+    if c.get("kind") == "busy":
+        return repr({k: v for k, v in c.items()})
     if c.get("kind") == "calls":
         sp = c["spec"]
         return repr({"kind": "calls", "seed": c["seed"], "action": sp["action"], "callers": [(x["where"], x["target"], x["ncalls"]) for x in sp["callers"]],
